@@ -336,6 +336,7 @@ class Circuit:
 
     def remove_dangling_nodes(self, root_node:Node):
         if len([l for l in root_node.outs if l is not None]) > 0: return
+        if any(n is root_node for n in self.io_nodes): return  # ports stay, even when nothing reads them anymore
         lines = [l for l in root_node.ins if l is not None]
         drivers = [l.driver for l in lines]
         root_node.remove()
